@@ -9,4 +9,5 @@ var Registry = map[string]func(*core.Ctx){
 	"C13": C13,
 	"C15": C15,
 	"C17": C17,
+	"C20": C20,
 }
